@@ -923,7 +923,7 @@ TRUST = ("Trusted: TLC; the harness's independent decoder (snap, serde_json, bla
          "sequentially consistent. Toy-scale options (block sizes of a few bytes) drive the same code paths as production sizes.")
 
 # checks whose traces are also followed against the reference programs (sequential scenarios)
-PROTO_PROPS = {"C01", "C02", "C03", "C05", "C13", "C14"}
+PROTO_PROPS = {"C01", "C02", "C03", "C04", "C05", "C13", "C14"}
 
 MANIFEST_TEXT = {
     "C01": dict(ref="DESIGN.md 7 C01", note=TRUST,
@@ -1063,7 +1063,7 @@ def run_check(prop, tier, seed, t0, keep=False):
     res = cvlib.run_and_validate(scens, keep=keep, proto=proto)
     print(f"[check {prop}] {len(scens)} scenarios executed in {res['wall_h']:.1f}s, {res['events']} events validated by TLC in {res['wall_t']:.1f}s")
     if proto:
-        print(f"[check {prop}] protocol conformance: {res['proto_calls']} real backup/delete calls followed against the reference programs of Conserve.tla in {res['wall_p']:.1f}s, {len(res['drift'])} drift records")
+        print(f"[check {prop}] protocol conformance: {res['proto_calls']} real backup/delete calls followed against the reference programs of Conserve.tla in {res['wall_p']:.1f}s ({res['proto_faults']} injected write failures taken along), {len(res['drift'])} drift records")
         seen = set()
         for d in res["drift"]:
             key = (d[1], d[3])
@@ -1094,6 +1094,7 @@ def run_check(prop, tier, seed, t0, keep=False):
     if proto:
         cov["protocol_calls_followed"] = res["proto_calls"]
         cov["protocol_drift_records"] = len(res["drift"])
+        cov["protocol_injected_failures_followed"] = res["proto_faults"]
     if states:
         cov["states"] = states
         cov["transitions"] = trans
